@@ -1,4 +1,60 @@
-(* Properties_C01.v — placeholder until SdlProofs.v lands; see DESIGN.md 4 C01. *)
-From PD Require Import Base SdlModel SdlObs.
-Theorem C01_placeholder : True. Proof. exact I. Qed.
-Print Assumptions C01_placeholder.
+(* Properties_C01.v — C01: a checkpoint at any batch resumes the exact remaining stream (StatefulDataLoader).
+   Model: SdlModel.v (multi-process iterator, state_dict, construction from a state dict), proofs: SdlMapProofs.v. *)
+From PD Require Import Base SdlModel SdlObs SdlMapProofs.
+Open Scope list_scope. Open Scope nat_scope.
+
+(* map-style datasets, PROVED: for every configuration (num_workers > 0, prefetch_factor > 0, ANY snapshot interval, any
+   batch sampler output), every interruption point k, EVERY arrival schedule of the interrupted run and EVERY arrival
+   schedule of the resumed run: state_dict() after k batches, loaded into a new iterator, yields exactly batches
+   k, k+1, ..., then StopIteration. (No failing indices: errors are C10's subject.) *)
+Theorem C01_map_resume_exact : forall c, c_kind c = KMap -> 0 < c_W c -> 0 < c_P c -> c_bad c = [] ->
+  forall k sched1 sched2, k <= LL c ->
+  let '(sk, _) := replay c k (sdl_fresh c) sched1 in
+  let '(sr, sched') := sdl_resume c (state_dict sk) sched2 in
+  outcomes c (S (LL c - k)) sr sched' = map (want c) (seq k (LL c - k)) ++ [OStop].
+Proof. exact map_resume_exact. Qed.
+Print Assumptions C01_map_resume_exact.
+
+(* chains of any length: k1 batches, checkpoint+resume, k2 batches, checkpoint+resume, ... — still exact *)
+Theorem C01_map_resume_chain : forall c, c_kind c = KMap -> 0 < c_W c -> 0 < c_P c -> c_bad c = [] ->
+  forall ks sched, fold_right Nat.add 0 ks <= LL c ->
+  let '(s, sched') := chain c ks (sdl_fresh c) sched in
+  let p := fold_right Nat.add 0 ks in
+  outcomes c (S (LL c - p)) s sched' = map (want c) (seq p (LL c - p)) ++ [OStop].
+Proof. exact map_resume_chain. Qed.
+Print Assumptions C01_map_resume_chain.
+
+(* the inductive step behind it: resuming from ANY good state gives a good state at the same absolute position *)
+Theorem C01_map_resume_preserves_position : forall c, c_kind c = KMap -> 0 < c_W c -> 0 < c_P c -> c_bad c = [] ->
+  forall off c0 k s sched, Good c off c0 k s ->
+  exists sr sched' B c0', sdl_resume c (state_dict s) sched = (sr, sched') /\ Good c B c0' (off + k - B) sr /\ off <= B <= off + k.
+Proof. exact resume_good. Qed.
+Print Assumptions C01_map_resume_preserves_position.
+
+(* iterable datasets (worker-side dataset state, retirement of exhausted workers, fast-forward of stateless datasets): the
+   FULL statement is the target; it is not yet proved and is decided on every run by lockstep correspondence with real
+   worker processes under scheduled arrival plus the direct oracle resumed = uninterrupted suffix. *)
+Definition C01_iter_statement : Prop :=
+  forall c, c_kind c = KIter -> 0 < c_W c -> 0 < c_P c -> length (c_shards c) = c_W c -> c_bad c = [] -> c_stateful c = true ->
+  forall k sched1 sched2, k <= length (reference c) ->
+  let '(sk, _) := replay c k (sdl_fresh c) sched1 in
+  let '(sr, sched') := sdl_resume c (state_dict sk) sched2 in
+  outcomes c (S (length (reference c) - k)) sr sched' = map OBatch (skipn k (reference c)) ++ [OStop].
+
+(* non-vacuity / regression instances (tests, not proofs): README-style iterable dataset N=10, bs=2, W=2, k=5 (the D1 case),
+   and a map-style instance with interval 3 *)
+Example C01_iter_instance_D1 :
+  let c := {| c_kind := KIter; c_W := 2; c_P := 2; c_I := 1; c_bs := 2; c_drop := false;
+              c_shards := [[0;2;4;6;8];[1;3;5;7;9]]; c_batches := []; c_bad := []; c_stateful := true; c_rewind := true |} in
+  let '(sk, _) := replay c 5 (sdl_fresh c) [1;0;1;1;0;0;1] in
+  let '(sr, sc) := sdl_resume c (state_dict sk) [0;1;0] in
+  outcomes c 2 sr sc = map OBatch (skipn 5 (reference c)) ++ [OStop].
+Proof. vm_compute. reflexivity. Qed.
+
+Example C01_map_instance :
+  let c := {| c_kind := KMap; c_W := 2; c_P := 2; c_I := 3; c_bs := 2; c_drop := false; c_shards := [];
+              c_batches := [[0;1];[2;3];[4;5];[6;7];[8;9];[10]]; c_bad := []; c_stateful := true; c_rewind := false |} in
+  let '(sk, _) := replay c 4 (sdl_fresh c) [1;1;0;1] in
+  let '(sr, sc) := sdl_resume c (state_dict sk) [1;0;1;0] in
+  (sd_steps (state_dict sk), outcomes c 3 sr sc) = (1, [OBatch [8;9]; OBatch [10]; OStop]).
+Proof. vm_compute. reflexivity. Qed.
